@@ -178,7 +178,7 @@ def unit_level(ctx, stats):
         except Exception as e:
             ctx.log("corpus entry %s unreadable: %s" % (p, e))
     per = 14 if quick else 40
-    maxw = 8 if quick else 64
+    maxw = 8 if quick else 63                 # harness/sched.c has room for 64 threads including the client
     lines, meta = [], []
     for wi, w in enumerate(wls):
         for k in range(per):
@@ -192,11 +192,13 @@ def unit_level(ctx, stats):
     mbs_ref = [0, 3, 5, 40]
     ref_lines = [bp_line(w, 1, mb, 0, 0) for w in wls for mb in mbs_ref]
     mod_lines = [model_line(w, mb) for w in wls for mb in mbs_ref]
+    spec_lines = [model_line(w, 0, "spec") for w in wls]
     t0 = time.time()
     impl, problems = run_parallel(ctx, [str(h)], lines, 1500)
     ref, rproblems = run_parallel(ctx, [str(hs)], ref_lines, 900, pin=False)
     t1 = time.time()
     mod = model_run(ctx, mod_lines)
+    spec = model_run(ctx, spec_lines)
     t2 = time.time()
     for pb in (problems + rproblems)[:3]:
         ctx.violation("crash:" + vlib.sha(pb["script"])[:12],
@@ -230,6 +232,14 @@ def unit_level(ctx, stats):
                                   "model and real block processor (serial pool) differ: model=%s real=%s" % (m[:600], refs[k][:600]),
                                   {"kind": "unit-model", "model_line": mod_lines[wi * nref + k], "harness_line": ref_lines[wi * nref + k],
                                    "model": m, "real": refs[k]}, found_input=False)
+        # (a') the queue-free reference `packRef` evaluated on the implementation's behaviour
+        if spec[wi] != want and want != "<no output>":
+            corr_bad += 1
+            if corr_bad <= 3:
+                ctx.violation("spec:" + vlib.sha(spec_lines[wi])[:12],
+                              "reference packRef and real block processor (serial pool) differ: spec=%s real=%s" % (spec[wi][:600], want[:600]),
+                              {"kind": "unit-model", "model_line": spec_lines[wi], "harness_line": ref_lines[wi * nref],
+                               "model": spec[wi], "real": want}, found_input=False)
         for fx in features(w, want):
             feat[fx] = feat.get(fx, 0) + 1
         if features(w, want) & {"fragment-block-overflow", "fragment-dedup-hit", "file-dedup-hit", "sparse", "multi-block-file"}:
@@ -263,14 +273,14 @@ def unit_level(ctx, stats):
                 key = {"ovt": "blocks-overtaking", "fbovt": "fragment-block-overtakes-data-block", "spur": "spurious-wakeup-taken"}[k]
                 feat[key] = feat.get(key, 0) + 1
     stats["unit"] = {
-        "workloads": len(wls), "corpus": len(corpus), "threaded_runs": len(lines), "serial_runs": len(ref_lines), "model_runs": len(mod_lines),
+        "workloads": len(wls), "corpus": len(corpus), "threaded_runs": len(lines), "serial_runs": len(ref_lines), "model_runs": len(mod_lines), "reference_runs": len(spec_lines),
         "distinct_workload_x_schedule_x_backlog": len(set(lines)), "distinct_nontrivial_workloads": len(nontrivial),
         "distinct_completion_orders_total": sum(len(v) for v in orders.values()),
         "workloads_with_more_than_one_completion_order": sum(1 for v in orders.values() if len(v) > 1),
         "features": dict(sorted(feat.items())), "histogram": {k: dict(sorted(v.items())) for k, v in hist.items()},
         "property_violations": bad, "model_disagreements": corr_bad,
         "wall_s": {"harness": round(t1 - t0, 1), "model": round(t2 - t1, 1)}}
-    stats["evaluations"] += len(lines) + len(ref_lines) + len(mod_lines)
+    stats["evaluations"] += len(lines) + len(ref_lines) + len(mod_lines) + len(spec_lines)
     stats["disagreements"] += bad + corr_bad
     stats["samples"] += [lines[0][:300], lines[len(lines) // 2][:300], mod_lines[-1][:300]]
     return h, hs
